@@ -7,6 +7,7 @@ import (
 	"encoding/json"
 	"fmt"
 	"os"
+	"sort"
 	"strings"
 	"testing"
 )
@@ -62,6 +63,41 @@ func TestVerifC04Bpv7(t *testing.T) {
 		`{"previous_node_block":123}`, `{"creation_timestamp_time":"now"}`, `{"destination":"dtn://d/","source":"dtn://s/","creation_timestamp_now":1,"lifetime":"1h","payload_block":"` + strings.Repeat("A", 65536) + `"}`,
 		`{"destination":"dtn://d/","source":"dtn://s/","creation_timestamp_epoch":true,"lifetime":"1h","payload_block":"x","bundle_age_block":1.5}`,
 		`{"canonical":1,"bundle_ctrl_flags":["x"]}`, `{"unknown_method":true}`}
+	// systematically: a complete request with every key left out in turn (and in pairs), and every key's value replaced by values
+	// of every JSON type
+	full := map[string]string{"destination": `"dtn://d/"`, "source": `"dtn://s/"`, "report_to": `"dtn://r/"`, "creation_timestamp_now": `1`,
+		"lifetime": `"1h"`, "bundle_ctrl_flags": `["MUST_NOT_BE_FRAGMENTED"]`, "bundle_age_block": `5`, "hop_count_block": `64`,
+		"previous_node_block": `"dtn://p/"`, "payload_block": `"hello"`}
+	var keys []string
+	for k := range full {
+		keys = append(keys, k)
+	}
+	sort.Strings(keys)
+	render := func(skip1, skip2, repl, val string) string {
+		var parts []string
+		for _, k := range keys {
+			if k == skip1 || k == skip2 {
+				continue
+			}
+			v := full[k]
+			if k == repl {
+				v = val
+			}
+			parts = append(parts, fmt.Sprintf("%q:%s", k, v))
+		}
+		return "{" + strings.Join(parts, ",") + "}"
+	}
+	jsons = append(jsons, render("", "", "", ""))
+	for i, k1 := range keys {
+		jsons = append(jsons, render(k1, "", "", ""))
+		for _, k2 := range keys[i+1:] {
+			jsons = append(jsons, render(k1, k2, "", ""))
+		}
+		for _, junk := range []string{`null`, `true`, `0`, `-1`, `1.5`, `1e300`, `18446744073709551616`, `""`, `"x"`, `[]`, `[null]`, `{}`, `{"a":null}`, `[[1,2],[3]]`} {
+			jsons = append(jsons, render("", "", k1, junk))
+		}
+	}
+	jsons = append(jsons, `{"destination":"dtn://d/","source":"dtn://s/","creation_timestamp_now":1,"lifetime":"24h"}`)
 	for _, js := range jsons {
 		js := js
 		n++
